@@ -2,7 +2,7 @@
    Model: Model/Stream.v (tie C) + the State field lists regenerated from pseudocode/state.py
    (Gen/StateFields.v, tie T). *)
 From Coq Require Import ZArith List Bool String.
-From VC2 Require Import Base.PyZ Gen.StateFields Model.Stream Proofs.StreamLift.
+From VC2 Require Import Base.PyZ Gen.StateFields Model.Stream Model.StreamContent Proofs.StreamLift Proofs.StreamContentProofs.
 Import ListNotations.
 Open Scope Z_scope.
 
@@ -61,9 +61,94 @@ Section C10.
   Qed.
 End C10.
 
-(* Not modelled: the CONTENT of the decoded pictures (the model's picture list holds picture numbers);
-   content, video parameters and picture coding mode handed to the callback are compared by the
-   differential run of tools/harness/C10.py. *)
+(* C10_pictures_are_concatenated speaks about picture NUMBERS; the content-carrying statement is
+   C10_content_is_concatenated below. *)
+
+(* ------------------------------------------------------------------ picture CONTENT (Model/StreamContent.v) *)
+
+(* The State entries regenerated from pseudocode/state.py are partitioned: every entry is either
+   retained by reset_state -- and those are I/O plumbing only -- or abstracted by the sequence-local
+   state `seq_state` of the content model; no entry of seq_state is retained.  (A field added to
+   retained_state_fields, or a new State entry, breaks one of these on the next run.) *)
+Theorem C10_state_entries_partition :
+  forallb (str_mem retained_io_entries) retained_state_fields = true /\
+  forallb (str_mem state_entry_names) seq_state_entries = true /\
+  forallb (fun e => negb (str_mem retained_state_fields e)) seq_state_entries = true /\
+  forallb (fun e => str_mem retained_state_fields e || str_mem seq_state_entries e) state_entry_names = true.
+Proof. exact (conj retained_are_io (conj seq_entries_exist (conj seq_entries_not_retained state_entries_partition))). Qed.
+
+Section C10_content.
+  Variable gst : Type.
+  Variable gstart : gst.
+  Variable gstep : gst -> symbol -> option gst.
+  Variable gcomplete : gst -> bool.
+  Variable lst : Type.
+  Variable lstart : Z -> lst.
+  Variable lstep : Z -> lst -> symbol -> option lst.
+  Variable lcomplete : Z -> lst -> bool.
+  Variable level_known : Z -> bool.
+  (* any payload and content types, ANY decoding function of the sequence-local state and the payload *)
+  Variable payload : Type.
+  Variable content : Type.
+  Variable decode : seq_state gst lst payload -> payload -> content.
+
+  (* reset_state, modelled entry by entry from the regenerated retained_state_fields, leaves the
+     sequence-local state equal to the initial one: every sequence starts from the same state *)
+  Theorem C10_sequence_starts_from_initial_state : forall st : seq_state gst lst payload,
+    reset_seq gst gstart lst payload st = init_seq gst gstart lst payload.
+  Proof. exact (reset_seq_is_init gst gstart lst payload). Qed.
+
+  (* for any list of individually accepted complete sequences the validator accepts the concatenation,
+     has gone through exactly that many sequences and outputs exactly the concatenation of what each
+     sequence outputs alone: picture numbers AND contents *)
+  Theorem C10_content_is_concatenated : forall seqs : list (list (cunit payload)),
+    Forall (fun s => eos_only_last (List.map cu_unit s) = true) seqs ->
+    Forall (fun s => cverdict gst gstart gstep gcomplete lst lstart lstep lcomplete level_known false
+                              payload content decode s = Accept) seqs ->
+    crun gst gstart gstep gcomplete lst lstart lstep lcomplete level_known false payload content decode
+         (List.concat seqs) =
+    (Accept, Z.of_nat (List.length seqs),
+     List.concat (List.map (fun s => coutput gst gstart gstep gcomplete lst lstart lstep lcomplete level_known false
+                                             payload content decode s) seqs)).
+  Proof.
+    exact (content_concat gst gstart gstep gcomplete lst lstart lstep lcomplete level_known false payload content decode).
+  Qed.
+
+  (* acceptance of a sequence is unchanged by prepending / appending accepted sequences *)
+  Theorem C10_content_independent : forall before sq after,
+    Forall (fun s => eos_only_last (List.map cu_unit s) = true) before ->
+    eos_only_last (List.map cu_unit sq) = true ->
+    Forall (fun s => eos_only_last (List.map cu_unit s) = true) after ->
+    Forall (fun s => cverdict gst gstart gstep gcomplete lst lstart lstep lcomplete level_known false
+                              payload content decode s = Accept) before ->
+    Forall (fun s => cverdict gst gstart gstep gcomplete lst lstart lstep lcomplete level_known false
+                              payload content decode s = Accept) after ->
+    (cverdict gst gstart gstep gcomplete lst lstart lstep lcomplete level_known false payload content decode
+              (List.concat (before ++ [sq] ++ after)) = Accept <->
+     cverdict gst gstart gstep gcomplete lst lstart lstep lcomplete level_known false payload content decode sq = Accept).
+  Proof.
+    exact (content_independent gst gstart gstep gcomplete lst lstart lstep lcomplete level_known false payload content decode).
+  Qed.
+End C10_content.
+
+(* non-vacuity: two different sequences, `decode` = (header id of the sequence, payload); the second
+   sequence's picture is decoded with ITS header although the first sequence used another one *)
+Definition ex10_gstep (s : Z) (sym : symbol) : option Z :=
+  if s =? 0 then (match sym with SSeqHdr => Some 1 | _ => None end)
+  else match sym with SEos => Some 2 | _ => Some 1 end.
+Definition ex10_decode (st : seq_state Z unit Z) (p : Z) : Z * Z :=
+  (match s_last_hdr (vh (ss_stream st)) with Some h => h | None => -1 end, p).
+Definition ex10_run :=
+  crun Z 0 ex10_gstep (fun s => s =? 2) unit (fun _ => tt) (fun _ _ _ => Some tt) (fun _ _ => true) (fun _ => true)
+       false Z (Z * Z)%type ex10_decode.
+Definition ex10_seq (hid picnum pid : Z) : list (cunit Z) :=
+  [ mkCU (mkUnit (KSeqHdr (mkHdr hid 2 3 0 0 1)) 20 20 0) 0;
+    mkCU (mkUnit (KPic true picnum (mkTp 4 4 0 2 1)) 30 30 20) pid;
+    mkCU (mkUnit KEos 13 0 30) 0 ].
+Example C10_example_content :
+  ex10_run (ex10_seq 7 0 100 ++ ex10_seq 8 5 200) = (Accept, 2, [(0, (7, 100)); (5, (8, 200))]) /\
+  ex10_run (ex10_seq 8 5 200) = (Accept, 1, [(5, (8, 200))]).
+Proof. vm_compute. split; reflexivity. Qed.
 
 Example C10_example : str_in retained_state_fields "_file" = true /\ str_in retained_state_fields "_last_picture_number" = false.
 Proof. vm_compute. split; reflexivity. Qed.
